@@ -580,3 +580,58 @@ async fn watch_membership_changes(
         last_network_set = new_network_set;
     }
 }
+
+#[cfg(datacake_verif)]
+/// Verification-only entry points (cfg(datacake_verif)).
+pub mod verif {
+    use super::*;
+    pub use crate::node::NodeMembership;
+    pub use crate::nodes_selector::{start_node_selector, NodeCycler};
+
+    /// Installs a data-centre layout into a running selector actor.
+    pub async fn set_nodes(
+        handle: &NodeSelectorHandle,
+        data_centers: BTreeMap<Cow<'static, str>, Nodes>,
+    ) {
+        handle.set_nodes(data_centers).await
+    }
+
+    /// Runs the real membership watcher over caller supplied snapshots.
+    pub fn spawn_membership_watcher(
+        self_node_id: NodeId,
+        network: RpcNetwork,
+        selector: NodeSelectorHandle,
+        statistics: ClusterStatistics,
+        snapshots: watch::Receiver<NodeMembership>,
+    ) -> watch::Receiver<MembershipChange> {
+        let (tx, rx) = watch::channel(MembershipChange::default());
+        tokio::spawn(watch_membership_changes(
+            self_node_id,
+            network,
+            selector,
+            statistics,
+            WatchStream::new(snapshots),
+            tx,
+        ));
+        rx
+    }
+
+    /// Builds a handle from its parts, without chitchat or a socket.
+    pub fn new_handle(
+        me: ClusterMember,
+        clock: Clock,
+        network: RpcNetwork,
+        selector: NodeSelectorHandle,
+        statistics: ClusterStatistics,
+        membership_changes: watch::Receiver<MembershipChange>,
+    ) -> DatacakeHandle {
+        DatacakeHandle {
+            me: Cow::Owned(me),
+            clock,
+            network,
+            selector,
+            statistics,
+            membership_changes,
+        }
+    }
+}
